@@ -211,7 +211,8 @@ def run(ctx: Ctx) -> None:
         "provenance (a token kind appears only if one of its producing rules is enabled) is PROVED for the modelled sub-parser "
         "(Props/C10b.lean mini_provenance, mini_no_hr, mini_no_code, mini_zero: code/fence/hr/heading/paragraph under all 16 "
         "subsets; model tied by the `miniblock` differential runs) and with block quotes nested to any depth (Props/C10c.lean "
-        "q_provenance, q_no_hr; tie `qblock`); for the other rules and for the conservative-extension "
+        "q_provenance, q_no_hr; tie `qblock`) and with lists as well (Props/C10d.lean l_provenance, l_no_hr, l_no_fence; tie "
+        "`lblock`); for the other rules and for the conservative-extension "
         "clause (the table rule declines without a pipe) it needs per-rule models and is decided by the oracle; the dispatch "
         "part — a disabled rule is in no chain — is a theorem",
     ]
